@@ -67,6 +67,10 @@ pub fn fixed_versions() -> Vec<Version> {
     v
 }
 
+thread_local! {
+    static ERR_TICK: std::cell::Cell<u32> = std::cell::Cell::new(0);
+}
+
 struct Sink(u64);
 impl Hasher for Sink {
     fn finish(&self) -> u64 {
@@ -148,7 +152,9 @@ pub fn exercise_error(ctx: &mut Ctx, e: &nodejs_semver::SemverError, src: &str, 
         let _ = e.location();
         let _ = e.to_string();
         let _ = format!("{:?}", e);
-        if e.input().len() < 400 {
+        // (every 8th error: sixty format calls on each of 268 million rejected strings is
+        //  what made one enumeration block outlast the orchestrator's patience)
+        if e.input().len() < 400 && ERR_TICK.with(|t| { let v = t.get().wrapping_add(1); t.set(v); v % 8 == 0 }) {
             let _ = fmt_specs(e);
             let _ = fmt_specs(e.kind());
         }
